@@ -796,7 +796,7 @@ func altsFor(l leafRef) []string {
 		switch {
 		case isHexStr(v):
 			if len(v) >= 4 {
-				a = append(a, "flipnib", "dropbyte")
+				a = append(a, "flipnib", "fliplast", "flipfirst", "dropbyte")
 				if strings.HasPrefix(v, "0x00") {
 					a = append(a, "stripzero")
 				}
@@ -856,6 +856,15 @@ func applyAlt(l leafRef, alt string) (any, bool) {
 		switch alt {
 		case "flipnib":
 			pos := 2 + (len(v)-2)/2
+			digits := "0123456789abcdef"
+			c := strings.IndexByte(digits, strings.ToLower(v)[pos])
+			return v[:pos] + string(digits[(c+1)%16]) + v[pos+1:], true
+		case "fliplast", "flipfirst":
+			// the last / first hex digit (e.g. the recovery id of a 65-byte signature, the top bits of a key)
+			pos := len(v) - 1
+			if alt == "flipfirst" {
+				pos = 2
+			}
 			digits := "0123456789abcdef"
 			c := strings.IndexByte(digits, strings.ToLower(v)[pos])
 			return v[:pos] + string(digits[(c+1)%16]) + v[pos+1:], true
